@@ -3,6 +3,7 @@
 package c12
 
 import (
+	"sort"
 	"strconv"
 	"strings"
 	"testing"
@@ -10,26 +11,46 @@ import (
 
 	route "github.com/envoyproxy/go-control-plane/envoy/config/route/v3"
 
+	meshconfig "istio.io/api/mesh/v1alpha1"
 	"istio.io/istio/pilot/pkg/model"
 	"istio.io/istio/pilot/pkg/networking/core"
 	"istio.io/istio/pilot/pkg/serviceregistry/provider"
 	"istio.io/istio/pkg/config"
 	"istio.io/istio/pkg/config/host"
+	"istio.io/istio/pkg/config/mesh"
 	"istio.io/istio/pkg/config/protocol"
 	"verif/harness/vlib"
 )
 
-// Part B: the REAL core.BuildSidecarOutboundVirtualHosts on a fake push context
-// (core.NewConfigGenTest, as httproute_test.go does).
+// Part B: the REAL sidecar route generation on a fake push context (core.NewConfigGenTest, as
+// httproute_test.go does): core.BuildSidecarOutboundVirtualHosts for the listener port, and ONE
+// ConfigGeneratorImpl.BuildHTTPRoutes call with several route names (the plain port route and sniffed
+// "host:port" routes of the same port) as an RDS request carries them.
+//
+// The scenario generator is organised around a feature table: the features are drawn first,
+// the configuration is built to have them, and they are recorded in the case sample and tags.
 
 type VSpec struct {
 	Hosts []string
+	Forms []string // per host: exact-svc, exact-nonreg, exact-nonreg-mixedcase, wild-matching, wild-nonmatching
 	Rules []Rule
 }
+type SidecarFeatures struct {
+	Port          int      // 80 / not 80
+	RegistryOnly  bool     // outboundTrafficPolicy
+	SniffedPorts  bool     // service ports without declared protocol (sniffed) instead of HTTP
+	VSHostForms   []string // union of the host forms used by the VirtualServices
+	MixedHostList bool     // some VirtualService lists a wildcard host and an exact host
+	WildBeforeHit bool     // ... with a non-matching wildcard BEFORE the host that matches a service
+	TwoVSOneHost  bool     // two VirtualServices name the same host
+	ExactVsWild   bool     // a service is named exactly by one VirtualService and by a wildcard of another
+	RouteNames    []string // route names requested together in one BuildHTTPRoutes call, in request order
+}
 type Scenario struct {
-	Port int
-	Svcs []Svc
-	VSs  []VSpec
+	Port     int
+	Svcs     []Svc
+	VSs      []VSpec
+	Features SidecarFeatures
 }
 
 var (
@@ -39,12 +60,32 @@ var (
 		{"d.ns.svc.cluster.local", []int{8080}},
 		// a namespace whose name has the proxy's namespace "ns" as a strict prefix
 		{"a.ns-x.svc.cluster.local", []int{80}}, {"e.ns-x.svc.cluster.local", []int{80, 8080}},
+		// sorts before the plain port route names
+		{"1api.example.com", []int{8080}},
 	}
-	bExtHosts = []string{"ext.example.org", "Ext2.Example.Org"}
+	bExtHosts  = []string{"ext.example.org", "Ext2.Example.Org"}
+	bWildHosts = []string{"*.ns.svc.cluster.local", "*.svc.cluster.local", "*.example.com", "*.internal.example.com", "*.example.org"}
+	bWildInst  = []string{"zzz.internal.example.com", "zzz.example.org", "zzz.example.com", "q.ns.svc.cluster.local"}
 )
 
+func wildMatches(pat, h string) bool { return strings.HasSuffix(h, pat[1:]) }
+
+func svcOnPort(svcs []Svc, h string, port int) bool {
+	for _, s := range svcs {
+		if s.Host == h {
+			for _, p := range s.Ports {
+				if p == port {
+					return true
+				}
+			}
+		}
+	}
+	return false
+}
+
 func genScenario(r *vlib.Rand) Scenario {
-	sc := Scenario{Port: vlib.Pick(r, []int{80, 80, 8080})}
+	sc := Scenario{Port: vlib.Pick(r, []int{80, 8080, 8080})}
+	f := SidecarFeatures{Port: sc.Port, RegistryOnly: r.Chance(30), SniffedPorts: r.Chance(40)}
 	for _, s := range bSvcPool {
 		if r.Chance(60) {
 			sc.Svcs = append(sc.Svcs, s)
@@ -53,16 +94,48 @@ func genScenario(r *vlib.Rand) Scenario {
 	if len(sc.Svcs) == 0 {
 		sc.Svcs = append(sc.Svcs, bSvcPool[r.Intn(len(bSvcPool))])
 	}
+	matchesSome := func(pat string) bool {
+		for _, s := range sc.Svcs {
+			if wildMatches(pat, s.Host) && svcOnPort(sc.Svcs, s.Host, sc.Port) {
+				return true
+			}
+		}
+		return false
+	}
+	formOf := func(h string) string {
+		switch {
+		case strings.HasPrefix(h, "*"):
+			if matchesSome(h) {
+				return "wild-matching"
+			}
+			return "wild-nonmatching"
+		case svcOnPort(sc.Svcs, strings.ToLower(h), sc.Port):
+			return "exact-svc"
+		case h != strings.ToLower(h):
+			return "exact-nonreg-mixedcase"
+		}
+		return "exact-nonreg"
+	}
 	nvs := r.Intn(4)
+	wantMixed := r.Chance(50) // feature: wildcard and exact hosts mixed in one VirtualService
 	for i := 0; i < nvs; i++ {
 		v := VSpec{}
-		nh := 1 + r.Intn(2)
+		nh := 1 + r.Intn(3)
 		for j := 0; j < nh; j++ {
 			var h string
-			if r.Chance(75) {
+			switch k := r.Intn(10); {
+			case k < 5:
 				h = bSvcPool[r.Intn(len(bSvcPool))].Host
-			} else {
+			case k < 7:
 				h = vlib.Pick(r, bExtHosts)
+			default:
+				h = vlib.Pick(r, bWildHosts)
+			}
+			if wantMixed && i == 0 && j == 0 {
+				h = vlib.Pick(r, bWildHosts)
+			}
+			if wantMixed && i == 0 && j == 1 {
+				h = sc.Svcs[r.Intn(len(sc.Svcs))].Host
 			}
 			dup := false
 			for _, x := range v.Hosts {
@@ -70,6 +143,12 @@ func genScenario(r *vlib.Rand) Scenario {
 			}
 			if !dup {
 				v.Hosts = append(v.Hosts, h)
+			}
+		}
+		if r.Chance(40) { // host order is a feature of its own
+			for a := range v.Hosts {
+				b := a + r.Intn(len(v.Hosts)-a)
+				v.Hosts[a], v.Hosts[b] = v.Hosts[b], v.Hosts[a]
 			}
 		}
 		dst := func() []Dest {
@@ -99,13 +178,108 @@ func genScenario(r *vlib.Rand) Scenario {
 		}
 		sc.VSs = append(sc.VSs, v)
 	}
+	// record what was drawn
+	forms := map[string]bool{}
+	seenHost := map[string]int{}
+	for i := range sc.VSs {
+		v := &sc.VSs[i]
+		wild, exact := false, false
+		missBefore := false
+		for _, h := range v.Hosts {
+			fm := formOf(h)
+			v.Forms = append(v.Forms, fm)
+			forms[fm] = true
+			if strings.HasPrefix(h, "*") {
+				wild = true
+			} else {
+				exact = true
+			}
+			if fm == "wild-nonmatching" {
+				missBefore = true
+			}
+			if (fm == "exact-svc" || fm == "wild-matching") && missBefore {
+				f.WildBeforeHit = true
+			}
+			seenHost[strings.ToLower(h)]++
+			if seenHost[strings.ToLower(h)] == 2 {
+				f.TwoVSOneHost = true
+			}
+		}
+		f.MixedHostList = f.MixedHostList || (wild && exact)
+	}
+	for _, s := range sc.Svcs {
+		ex, wi := -1, -1
+		for i, v := range sc.VSs {
+			for _, h := range v.Hosts {
+				if strings.EqualFold(h, s.Host) && ex < 0 {
+					ex = i
+				}
+				if strings.HasPrefix(h, "*") && wildMatches(h, s.Host) && wi < 0 {
+					wi = i
+				}
+			}
+		}
+		if ex >= 0 && wi >= 0 && ex != wi {
+			f.ExactVsWild = true
+		}
+	}
+	for k := range forms {
+		f.VSHostForms = append(f.VSHostForms, k)
+	}
+	sort.Strings(f.VSHostForms)
+	// route names requested together: the plain port route and sniffed routes of services of this port
+	names := []string{strconv.Itoa(sc.Port)}
+	for _, s := range sc.Svcs {
+		if svcOnPort(sc.Svcs, s.Host, sc.Port) && r.Chance(45) {
+			names = append(names, s.Host+":"+strconv.Itoa(sc.Port))
+		}
+	}
+	sort.Strings(names) // the order a sorted resource list gives ("1api...:8080" before "8080")
+	if r.Chance(25) {
+		for a, b := 0, len(names)-1; a < b; a, b = a+1, b-1 {
+			names[a], names[b] = names[b], names[a]
+		}
+	}
+	f.RouteNames = names
+	sc.Features = f
 	return sc
+}
+
+func (f SidecarFeatures) tags() []string {
+	t := []string{"B:port-" + strconv.Itoa(f.Port)}
+	for _, fm := range f.VSHostForms {
+		t = append(t, "B:host-"+fm)
+	}
+	add := func(b bool, s string) {
+		if b {
+			t = append(t, s)
+		}
+	}
+	add(f.RegistryOnly, "B:registry-only")
+	add(!f.RegistryOnly, "B:allow-any")
+	add(f.SniffedPorts, "B:sniffed-protocol")
+	add(f.MixedHostList, "B:wild+exact-in-one-vs")
+	add(f.WildBeforeHit, "B:nonmatching-wildcard-before-matching-host")
+	add(f.TwoVSOneHost, "B:two-vs-same-host")
+	add(f.ExactVsWild, "B:exact-vs-wildcard-owner")
+	add(len(f.RouteNames) > 1, "B:sniffed+plain-route-names-together")
+	add(len(f.RouteNames) > 1 && strings.Contains(f.RouteNames[0], ":"), "B:sniffed-name-requested-first")
+	return t
 }
 
 var t0 = time.Date(2024, 1, 1, 0, 0, 0, 0, time.UTC)
 
-func runVhosts(t *testing.T, sc Scenario) []*route.VirtualHost {
+type sidecarOut struct {
+	VHosts []*route.VirtualHost              // BuildSidecarOutboundVirtualHosts
+	RDS    map[string][]*route.VirtualHost   // per requested route name
+}
+
+func runSidecar(t *testing.T, sc Scenario) sidecarOut {
 	var svcs []*model.Service
+	proto := protocol.HTTP
+	if sc.Features.SniffedPorts {
+		proto = protocol.Unsupported
+	}
 	for i, s := range sc.Svcs {
 		svc := &model.Service{
 			CreationTime: t0.Add(time.Duration(i) * time.Minute), Hostname: host.Name(s.Host),
@@ -117,7 +291,7 @@ func runVhosts(t *testing.T, sc Scenario) []*route.VirtualHost {
 			svc.Attributes.Namespace = strings.Split(s.Host, ".")[1]
 		}
 		for _, p := range s.Ports {
-			svc.Ports = append(svc.Ports, &model.Port{Name: "http-" + strconv.Itoa(p), Port: p, Protocol: protocol.HTTP})
+			svc.Ports = append(svc.Ports, &model.Port{Name: "p-" + strconv.Itoa(p), Port: p, Protocol: proto})
 		}
 		svcs = append(svcs, svc)
 	}
@@ -127,10 +301,24 @@ func runVhosts(t *testing.T, sc Scenario) []*route.VirtualHost {
 		c.CreationTimestamp = t0.Add(time.Duration(i) * time.Hour)
 		cfgs = append(cfgs, c)
 	}
-	cg := core.NewConfigGenTest(t, core.TestOptions{Services: svcs, Configs: cfgs})
+	m := mesh.DefaultMeshConfig()
+	if sc.Features.RegistryOnly {
+		m.OutboundTrafficPolicy = &meshconfig.MeshConfig_OutboundTrafficPolicy{Mode: meshconfig.MeshConfig_OutboundTrafficPolicy_REGISTRY_ONLY}
+	}
+	cg := core.NewConfigGenTest(t, core.TestOptions{Services: svcs, Configs: cfgs, MeshConfig: m})
 	proxy := cg.SetupProxy(&model.Proxy{ConfigNamespace: "ns", DNSDomain: "ns.svc.cluster.local"})
-	vhosts, _, _ := core.BuildSidecarOutboundVirtualHosts(proxy, cg.PushContext(), strconv.Itoa(sc.Port), sc.Port, nil, model.DisabledCache{})
-	return vhosts
+	out := sidecarOut{RDS: map[string][]*route.VirtualHost{}}
+	out.VHosts, _, _ = core.BuildSidecarOutboundVirtualHosts(proxy, cg.PushContext(), strconv.Itoa(sc.Port), sc.Port, nil, model.DisabledCache{})
+	// one RDS request with all the names
+	res, _ := cg.ConfigGen.BuildHTTPRoutes(proxy, &model.PushRequest{Push: cg.PushContext()}, sc.Features.RouteNames)
+	for _, rsc := range res {
+		rc := &route.RouteConfiguration{}
+		if err := rsc.Resource.UnmarshalTo(rc); err != nil {
+			panic(err)
+		}
+		out.RDS[rc.Name] = rc.VirtualHosts
+	}
+	return out
 }
 
 func vhostTerm(v *route.VirtualHost) string {
@@ -138,31 +326,42 @@ func vhostTerm(v *route.VirtualHost) string {
 }
 
 func genVhostCases(t *testing.T, c *vlib.Collector, id int, seed uint64) int {
-	n := vlib.Scale(30, 1500)
+	n := vlib.Scale(40, 1500)
 	for i := 0; i < n; i++ {
 		r := vlib.NewRand(seed*2000003 + uint64(i)*104729 + 5)
 		sc := genScenario(r)
-		if !c.Wanted(id) {
-			id++
+		ncases := 1 + len(sc.Features.RouteNames)
+		wanted := false
+		for k := 0; k < ncases; k++ {
+			wanted = wanted || c.Wanted(id+k)
+		}
+		if !wanted {
+			id += ncases
 			continue
 		}
-		var vhosts []*route.VirtualHost
-		if p, msg := vlib.Recover(func() { vhosts = runVhosts(t, sc) }); p {
+		var out sidecarOut
+		if p, msg := vlib.Recover(func() { out = runSidecar(t, sc) }); p {
 			c.Violate(vlib.Violation{ID: id, Kind: "panic", Detail: msg, Case: sc})
-			id++
+			id += ncases
 			continue
 		}
-		// requests: every service FQDN, every VirtualService host, their case variants, an unknown host
+		// requests: every service FQDN, every VirtualService host (wildcards instantiated), their case
+		// variants, an unknown host, the alt-domain family of the Kubernetes services
 		auths := []string{"unknown.example.org"}
+		auths = append(auths, bWildInst...)
 		for _, s := range bSvcPool {
 			auths = append(auths, s.Host)
 		}
 		for _, v := range sc.VSs {
-			auths = append(auths, v.Hosts...)
+			for _, h := range v.Hosts {
+				if strings.HasPrefix(h, "*") {
+					auths = append(auths, "w"+h[1:])
+				} else {
+					auths = append(auths, h)
+				}
+			}
 		}
 		auths = append(auths, strings.ToUpper(sc.Svcs[0].Host))
-		// the alt-domain family of every Kubernetes service of the pool: short name, name.ns,
-		// name.ns.svc, absolute FQDN, with and without port
 		for _, s := range bSvcPool {
 			if !strings.HasSuffix(s.Host, ".svc.cluster.local") {
 				continue
@@ -170,10 +369,10 @@ func genVhostCases(t *testing.T, c *vlib.Collector, id int, seed uint64) int {
 			parts := strings.Split(s.Host, ".")
 			fam := []string{parts[0], parts[0] + "." + parts[1], parts[0] + "." + parts[1] + ".svc", s.Host + "."}
 			for _, f := range fam {
-				if r.Chance(60) {
+				if r.Chance(50) {
 					auths = append(auths, f)
 				}
-				if r.Chance(25) {
+				if r.Chance(20) {
 					auths = append(auths, f+":"+strconv.Itoa(sc.Port))
 				}
 			}
@@ -197,25 +396,42 @@ func genVhostCases(t *testing.T, c *vlib.Collector, id int, seed uint64) int {
 			}
 		}
 		cx := Ctx{Port: sc.Port, NS: "ns", Gateways: []string{"mesh"}}
+		cxT := ctxTerm(cx)
 		svcT := vlib.ListOf(sc.Svcs, func(s Svc) string { return vlib.Pair(vlib.Str(s.Host), vlib.ListOf(s.Ports, vlib.NI)) })
 		vsT := vlib.ListOf(sc.VSs, func(v VSpec) string { return vlib.Pair(strsTerm(v.Hosts), vlib.ListOf(v.Rules, ruleTerm)) })
-		term := vlib.App("VHosts", vlib.NI(id), ctxTerm(cx), svcT, vsT, vlib.ListOf(vhosts, vhostTerm), vlib.ListOf(reqs, reqTerm))
-		tags := []string{"B:port-" + strconv.Itoa(sc.Port), "B:vs-" + strconv.Itoa(len(sc.VSs))}
-		hostSeen := map[string]int{}
-		for _, v := range sc.VSs {
-			for _, h := range v.Hosts {
-				hostSeen[strings.ToLower(h)]++
-				if hostSeen[strings.ToLower(h)] == 2 {
-					tags = append(tags, "B:two-vs-same-host")
+		reqT := vlib.ListOf(reqs, reqTerm)
+		tags := append(sc.Features.tags(), "B:vs-"+strconv.Itoa(len(sc.VSs)))
+		fallback := "(Some (ADist [(Build_ckey 0%N \"\" \"PassthroughCluster\", 1%N)]))"
+		if sc.Features.RegistryOnly {
+			fallback = "(Some (ADirect 502%N None))"
+		}
+		emit := func(what string, vhosts []*route.VirtualHost, fb, force string, rq []Request, rqT string) {
+			term := vlib.App("VHosts", vlib.NI(id), cxT, svcT, vsT, vlib.ListOf(vhosts, vhostTerm), fb, force, rqT)
+			c.Add(vlib.Case{ID: id, Term: term, Tags: append(append([]string{}, tags...), "B:observe-"+what), Trivial: len(sc.VSs) == 0,
+				Sample: map[string]any{"observe": what, "features": sc.Features, "scenario": sc, "requests": rq, "vhosts": len(vhosts)}})
+			id++
+		}
+		// (1) the virtual hosts of the listener port
+		emit("BuildSidecarOutboundVirtualHosts", out.VHosts, "None", "None", reqs, reqT)
+		// (2) every route configuration of the one RDS request
+		for _, name := range sc.Features.RouteNames {
+			vh, ok := out.RDS[name]
+			if !ok {
+				c.Violate(vlib.Violation{ID: id, Kind: "oracle", Detail: "no RouteConfiguration for requested name " + name, Case: sc})
+				id++
+				continue
+			}
+			if strings.Contains(name, ":") {
+				// sniffed route of one service: whatever the authority, the request is for that service
+				few := reqs
+				if len(few) > 12 {
+					few = few[:12]
 				}
-				if !strings.Contains(h, "svc.cluster.local") && !strings.HasSuffix(h, "example.com") {
-					tags = append(tags, "B:non-registry-vs-host")
-				}
+				emit("rds-sniffed:"+name, vh, "None", "(Some "+vlib.Str(strings.Split(name, ":")[0])+")", few, vlib.ListOf(few, reqTerm))
+			} else {
+				emit("rds-port:"+name, vh, fallback, "None", reqs, reqT)
 			}
 		}
-		c.Add(vlib.Case{ID: id, Term: term, Tags: tags, Trivial: len(sc.VSs) == 0,
-			Sample: map[string]any{"scenario": sc, "requests": reqs, "vhosts": len(vhosts)}})
-		id++
 	}
 	return id
 }
